@@ -431,6 +431,10 @@ def b_campaign(ctx, env):
     ctx.notes["B_workloads_dying_alone"] = sorted(set("%s c%d" % (w.fmt.name, w.ch) for w in dying))[:20]
     wls = [w for w in wls if w not in dying]
     groups = make_groups(ctx, wls, 2 if quick else 4) + twin_groups(ctx, fs, 1 if quick else 4)
+    from .. import spoolcamp                         # live handles with a second file of their own (ALAC spool), more than one packet each
+    sp = spoolcamp.groups(ctx, fs, Workload, Group)
+    stats["spool_twin_groups"] = len(sp)
+    groups += sp
     solo_scripts = {}
     for g in groups:
         for k, w in enumerate(g.wls):
